@@ -29,7 +29,7 @@ claim("C03", "S (symfield)", "SMT (datatype/EUF) queries over the recorded trans
       "Structural binding conditions only: vk first, absorb-before-squeeze, every proof element bound, statement -> absorbed sequence injective (lengths 0..3, <= 2 columns). Not cryptographic binding.",
       "Trusted: transcript model. Outside: everything cryptographic; bit-flip exhaustion; Kani part for trailing bytes / decoders pending.", "DESIGN 3 C03")
 claim("C04", "C (csmt)", "SMT (z3 || cvc5) over constraint systems extracted from the real synthesis, every advice/instance cell symbolic over F_p (UF field products + sound lemmas); counterexamples replayed on the real MockProver",
-      "Soundness of every native-field gadget operation per (operation, parameter tuple) of an enumerated family, for ALL assignments; completeness only at concrete admissible inputs (honest runs).",
+      "Soundness of every native-field gadget operation (arithmetic, comparison, decomposition, bitwise, division, selection, vector and map gadgets) per (operation, parameter tuple) of an enumerated family, for ALL assignments; the verifying key of the real keygen commits to the structure checked; completeness decided by the solver for the shapes whose constraint system is triangular (Skolem witnesses read off the system), at sampled admissible and solver-filtered boundary inputs (honest runs) for the rest.",
       "Trusted: MockProver's view of the circuit = keygen's (decided under C02 for its shapes), specs written from trait docs, field-lemma abstraction (sound), solvers. C09 assumed, spot-checked.", "DESIGN 2.C, 3 C04, 8")
 claim("C05", "C (csmt + ffchain)", "SMT over extracted constraint systems; foreign-field gate groups decided by a chain of solver obligations (range, CRT reconstruction, magnitude bound, CRT lemma, lifting) feeding residue hypotheses to the main query",
       "Soundness of emulated-field operations (secp256k1 base/scalar, BLS12-381 base; Curve25519 fields at the thorough tier) for all limb representations within the chip's bounds, per (field, operation) shape.",
@@ -39,7 +39,7 @@ claim("C06", "C (csmt)", "SMT over extracted constraint systems with monomial no
       "Trusted: as C04. Outside: listed in evidence (subgroup membership, mul/msm, hash-to-curve, foreign ECC gates).", "DESIGN 3 C06")
 claim("C08", "C (csmt)", "SMT over the extracted exposure circuits (all assignments) + concrete comparison of the off-circuit encoder with the honest instance",
       "Partial: for bit/byte/native values, emulated field elements and Jubjub points, the cells the chip's own exposure puts on the instance column determine the value and satisfy the type's range invariant (all assignments); the off-circuit encoder equals the honest instance at boundary and seeded values (concrete).",
-      "Outside: vk identities/accumulators, foreign points, BigUint, Jubjub scalars; the off-circuit encoders for all values.", "DESIGN 3 C08")
+      "Outside: vk identities/accumulators, foreign points, Jubjub scalars; the off-circuit encoders for all values (compared at the honest runs only).", "DESIGN 3 C08")
 claim("C10", "M (mir2smt) + K (Kani)", "nightly MIR of the field kernels translated to SMT (Int, mod 2^64 semantics) + ground constant obligations; Kani/CBMC harnesses over all byte strings with blst as recording oracles",
       "Pure-Rust Montgomery fields (Jubjub Fr, Curve25519 Fp, bn256, BLS const kernels): add/sub/neg/double/mul/square/reduce for all inputs; decoders canonical over all byte strings; every published constant satisfies its defining equation.",
       "Trusted: MIR translator (validated against native runs every run), Kani/CBMC, blst itself (oracle). Outside: blst arithmetic, pow loops, Bernstein-Yang inversion.", "DESIGN 3 C10, 8")
@@ -52,22 +52,27 @@ claim("C12", "K (Kani) + S (symfield)", "Kani over all 32-byte scalars for the B
 claim("C14", "S (symfield)", "real KZG multi_prepare executed on a symbolic pairing engine (discrete-log model); guard polynomial identity decided after normalisation by SMT",
       "Completeness identity, DuplicatedQuery and eval-binding of the real multi_prepare for all assignment patterns of <= 3 points to 1 chopped + <= 3 one-piece commitments, symbolic polynomials and toxic waste.",
       "Trusted: symbolic pairing model, specification prover written from the halo2 book. Outside: q-SDH/AGM soundness, multi_open's MSM.", "DESIGN 3 C14")
-claim("C15", "S (symfield)", "real DualMSM/MSMKZG fold executed on the symbolic pairing engine; linearity decided by SMT",
+claim("C15", "S (symfield) + K (Kani)", "real DualMSM/MSMKZG fold executed on the symbolic pairing engine; linearity decided by SMT",
       "Narrow: the batching fold is the documented linear combination (scale/add linear, every member included).",
-      "Outside: probabilistic soundness of random linear combination; batch_verify itself (monomorphic on Bls12); totality on lengths pending (Kani part).", "DESIGN 3 C15")
-claim("C18", "C (csmt)", "SMT over the constraint system of the compiled one-operation ZKIR program; the real off-circuit evaluator produces the instance of the honest run",
+      "Plus (part C15_K, Kani): batch_verify / Guard::batch_verify answer empty and length-mismatched batches with a value for all lengths 0..2 (proof-system calls behind them as nondeterministic oracles). Outside: probabilistic soundness of random linear combination, the accumulator of the aggregator crate.", "DESIGN 3 C15")
+claim("C18", "C (csmt) + K (Kani)", "SMT over the constraint system of the compiled one-operation ZKIR program; the real off-circuit evaluator produces the instance of the honest run",
       "Partial: per operation on Native/Bool/Bytes operands, the compiled circuit accepts exactly the published values the documented semantics prescribes (all assignments); the off-circuit evaluator agrees at the concrete inputs run.",
-      "Outside: Jubjub/hash/BigUint operations, multi-instruction programs, codecs.", "DESIGN 3 C18")
+      "Also BigUint operands (add/sub/mul/is_equal/inner_product/into_bytes/from_bytes/mod_exp e <= 3; part C18_B) and totality of into_bytes on both sides for all n (Kani, part C18_K). Outside: Jubjub/hash operations, multi-instruction programs, codecs.", "DESIGN 3 C18")
 claim("C19", "A (auto-smt) + C (csmt)", "z3 regular-language theory vs the dumped automaton of the real compiler unrolled over a symbolic word; SMT over the extracted parser / base64 circuits",
       "Language + marker equivalence for every word of length <= N (8 quick / 16 thorough) over a regex family incl. the library's own specs, per-state reachability/finality by emptiness queries, shipped automaton = fresh compilation; in-circuit parse and base64 decode sound for stated lengths.",
       "Trusted: z3 RegLan (validated against a derivative matcher), as C04 for the circuits. Outside: both-marked intersections, ParserGadget, credential circuits.", "DESIGN 3 C19, 8")
 
+claim("C07", "C (csmt, normal forms)", "constraint rows extracted from the real Poseidon chip propagated to exact linear forms over hash-consed x^5 atoms; equality with the textbook permutation decided as ground coefficient queries (z3 || cvc5, perturbed twin must be sat) + plain engine-C SMT queries for the full rounds and the variable-length control cells; the real generic off-circuit code run on a symbolic field",
+      "Poseidon only: in-circuit permutation / fixed-length hash (<= 5 inputs) / sponge scripts / variable-length hash (MAX_LEN <= 4 quick, 6 thorough) equal the textbook sponge over the exported constants for ALL inputs; every state cell determined (no free cell); off-circuit permutation_cpu / HashCPU / SpongeCPU equal the same textbook forms; keygen structure = checked structure.",
+      "Trusted: textbook Poseidon written from the paper's definition over the constants the real code exports (that the constants are the Grain-LFSR output is not checked). NOT covered: SHA-256/512, RIPEMD-160, Keccak/SHA3, BLAKE2b (whole compressions beyond one query; sub-gadgets private).", "DESIGN 3 C07, 8")
+claim("C16", "K (Kani)", "Kani/CBMC harnesses executing the real decoders on symbolic byte buffers (every byte, length and stubbed-oracle answer symbolic), unwinding assertions on; failing harnesses replayed natively against the real public API",
+      "Narrow: VerifyingKey::read_from_cs framing (buffers <= 8 bytes, toy field + stub commitment scheme) never panics and yields an index-safe key; the reader calls EvaluationDomain::new only inside its precondition and the integer prefix of new does not panic there; ZkStdLibArch::read (<= 18 bytes) lets through only configurations ZkStdLib::configure accepts; G1 point decoding respects the curve/subgroup oracles.",
+      "Trusted: Kani/CBMC, struct-assembling stand-ins listed in evidence. Outside: ParamsKZG readers, zkir program decoding, constraint systems with gates in the framing harness, allocation sizes (no resource model), proofs (covered structurally under C03).", "DESIGN 3 C16, 8")
+
 NA = {
-    "C07": "not built yet: hash gadgets (planned narrow claim on sub-gadgets, DESIGN 3 C07)",
     "C08": "placeholder",
     "C09": "not applicable to solver-based checking: a non-interference property of the whole synthesis path whose witness generation concretises at every step (DESIGN 3 C09); assumed and spot-checked by engine C",
     "C13": "not applicable: the pairing is entirely blst C/assembly behind FFI; no Rust arithmetic to encode (DESIGN 3 C13)",
-    "C16": "Kani part in progress (builder K2); will be claimed when every obligation is decided",
     "C17": "not applicable: quantifies over thread schedules and whole key-generation runs through blst MSM/FFT; nothing symbolic to decide (DESIGN 3 C17)",
     "C20": "not applicable: the in-circuit verifier is 10^5-10^6 rows over emulated curve arithmetic; out of reach for engines C and S (DESIGN 3 C20)",
 }
@@ -83,7 +88,7 @@ m = {
               "baseline_off_cmd": "cd /repo && (cargo nextest run --workspace --no-fail-fast --offline --test-threads 8 || cargo test --workspace --no-fail-fast --offline)",
               "source_commits": hooks, "add_only": True},
     "engines": [
-        {"name": "C (csmt)", "path": "engines/extract + engines/pysmt/vf/{csmt,cengine,cspec,ffchain}.py", "serves_properties": ["C04", "C05", "C06", "C18", "C19"], "kind_free_text": "constraint systems emitted by the real chip synthesis, extracted from MockProver, all cells symbolic over F_p; z3-new || cvc5"},
+        {"name": "C (csmt)", "path": "engines/extract + engines/pysmt/vf/{csmt,cengine,cspec,ffchain}.py", "serves_properties": ["C04", "C05", "C06", "C07", "C08", "C18", "C19"], "kind_free_text": "constraint systems emitted by the real chip synthesis, extracted from MockProver, all cells symbolic over F_p; z3-new || cvc5"},
         {"name": "S (symfield)", "path": "engines/symfield + engines/pysmt/vf/symf.py", "serves_properties": ["C01", "C02", "C03", "C12", "C14", "C15"], "kind_free_text": "generic proof-system code executed on a term-building field, recording transcript, symbolic commitment scheme / pairing engine"},
         {"name": "K (Kani)", "path": "engines/kani/* + engines/pysmt/vf/kani.py", "serves_properties": ["C10", "C11", "C12", "C16", "C15", "C18", "C03", "C14"], "kind_free_text": "Kani 0.68 / CBMC harness crates, blst FFI as recording nondeterministic oracles"},
         {"name": "M (mir2smt)", "path": "engines/pysmt/vf/mir*.py + engines/mirreplay", "serves_properties": ["C10", "C11"], "kind_free_text": "nightly MIR of loop-free integer kernels translated to SMT over Int with mod 2^64 semantics"},
